@@ -101,6 +101,11 @@ def fingerprint():
     return fp
 
 
+_FIRST_FP = {}
+EMPTY = frozenset(["{}", "[]", "set()", "()", "OrderedDict()", "frozenset()", "None", "''", "0", "defaultdict(<class 'dict'>, {})",
+                   "defaultdict(<class 'list'>, {})", "Counter()", "deque([])"])
+
+
 class OutputGuard(object):
     """stdout/stderr guard: Python level (sys.stdout/sys.stderr replaced by recorders) and
     file-descriptor level (fd 1/2 redirected into a temporary file)."""
@@ -206,6 +211,8 @@ def shard_history(P, idx, n_hist, n_ops, seed, base):
         rng = random.Random("C19-hist-" + hseed)
         P.evaluations += 1
         fp0 = fingerprint()
+        if not _FIRST_FP:
+            _FIRST_FP.update(fp0)  # state at the start of this process (right after import)
         with OutputGuard() as g:
             ops = run_history(rng, n_ops, keep)
             after = probe19.observe(inputs)
@@ -220,7 +227,15 @@ def shard_history(P, idx, n_hist, n_ops, seed, base):
                         probe_input=inp, fresh=x, after_history=y, last_ops=ops[-8:])
         P.ev("global-state")
         fp1 = fingerprint()
-        for k in sorted(set(fp0) | set(fp1)):
+        for k in sorted(fp0):
+            # Judged: data that EXISTED and was NON-EMPTY before the history (constant tables,
+            # class-level defaults with content, contexts, paths, filters).  A container that
+            # starts empty and grows is a cache; whether a cache is harmful is decided by the
+            # behavioural monitors (history / threads), not by its mere existence.  Names that
+            # appear later are ignored for the same reason.
+            if _FIRST_FP.get(k, fp0[k]) in EMPTY:
+                P.stratum("global-state:initially-empty-container-not-judged")
+                continue
             if fp0.get(k) != fp1.get(k):
                 what = k if not k.startswith("cvss") else k
                 P.violation("global-state", "C19:global-state:modified:%s" % what, case, before=str(fp0.get(k))[:300],
@@ -390,6 +405,10 @@ ROUNDINGS = [decimal.ROUND_CEILING, decimal.ROUND_DOWN, decimal.ROUND_FLOOR, dec
 
 def shard_decimal(P, rounding, seed, base):
     inputs = probe19.probe_inputs(seed)
+    # reference: the same sequential observation in THIS process under the default context
+    # (twice, so that history effects are not attributed to the decimal context)
+    probe19.observe(inputs)
+    base = probe19.observe(inputs)
     for prec in ((28, 29, 40, 100) if len(inputs["vectors"]) < 0 else PRECS[0]):
         P.evaluations += 1
         ctx = decimal.Context(prec=prec, rounding=rounding)
@@ -416,7 +435,13 @@ def replay(R, w):
     case = w["case"]
     seed = case.get("seed", R.seed)
     base, _ = fresh_probe(seed if isinstance(seed, int) else R.seed)
-    if case["kind"] == "history":
+    if case["kind"] == "sequential":
+        inputs0 = probe19.probe_inputs(seed)
+        iso = probe19.isolated_baseline(inputs0)
+        R.P.ev("history")
+        if probe19.diff(iso, base) is not None:
+            R.P.violation("history", w["key"], case)
+    elif case["kind"] == "history":
         for h_idx in range(1):
             shard_history(R.P, case["shard"], case["histories"], case["n_ops"], seed, base)
     elif case["kind"] == "decimal":
@@ -436,8 +461,22 @@ def run(R):
     R.assumptions = ["decimal signal FLAGS are not part of the fingerprint (every decimal operation sets them by design)",
                      "thread interleavings are sampled (GIL switch interval 10 us + injected yields at library lines)",
                      "fresh-process baseline under PYTHONHASHSEED=0 with the default decimal context"]
-    base, err = fresh_probe(R.seed)
+    # Baseline WITHOUT history: every probe input observed in its own forked child of this
+    # still pristine process (library imported, nothing constructed).  The sequential probe in
+    # a fresh process is then already the first history that is compared with it.
+    inputs0 = probe19.probe_inputs(R.seed)
+    base = probe19.isolated_baseline(inputs0)
+    seq, err = fresh_probe(R.seed)
     P = R.P
+    P.evaluations += 1
+    P.ev("history")
+    P.dist(("history", "sequential-probe"))
+    d = probe19.diff(base, seq)
+    if d is not None:
+        sec, i, fields, x, y = d
+        P.violation("history", "C19:history:probe-differs-after-history:%s:%s" % (sec, "+".join(fields[:2]) or "value"),
+                    {"kind": "sequential", "seed": R.seed}, probe_input=inputs0[sec][i] if i >= 0 else None, isolated=x,
+                    after_earlier_probe_inputs=y)
     P.ev("silent")
     if err.strip():
         P.violation("global-state", "C19:global-state:writes-to-stderr-in-fresh-process", {"kind": "fresh"}, written=err[:300])
@@ -456,7 +495,7 @@ def run(R):
         P.evaluations += 1
         P.ev("hash-seed")
         P.dist(("hashseed", hs, len(P.distinct)))
-        d = probe19.diff(base, other)
+        d = probe19.diff(seq, other)  # same sequential probe, only the hash seed differs
         if d is not None:
             sec, i, fields, x, y = d
             P.violation("hash-seed", "C19:hash-seed:probe-differs:%s" % sec, {"kind": "hashseed", "seed": R.seed, "hashseed": hs},
